@@ -367,6 +367,34 @@ fn gen_program(rng: &mut Rng, fns: &[md::Spec], nthreads: usize, ops_per_thread:
     progs
 }
 
+/// RACING INVALIDATIONS: thread 0 stores a key, then EVERY thread invalidates the hot cache (all by tag, all by name, or all
+/// conditionally with a predicate that matches every key) and calls that key again.  Two invalidations of one cache overlap,
+/// so an invalidation that returns while another one is still pending (a "someone else is already clearing" shortcut) lets the
+/// caller be served an entry stored before its own invalidation began.
+fn gen_racing_invalidations(rng: &mut Rng, fns: &[md::Spec], nthreads: usize) -> Vec<Vec<String>> {
+    let hot = &fns[0];
+    let inv = if !hot.tags.is_empty() {
+        match rng.below(3) {
+            0 => format!("tag {}", hot.tags[0]),
+            1 => format!("cache {}", hot.name),
+            _ => format!("with {} 4", hot.name),
+        }
+    } else {
+        format!("with {} 4", hot.name)
+    };
+    let mut progs = Vec::new();
+    for t in 0..nthreads {
+        let mut p = Vec::new();
+        if t == 0 {
+            p.push(call_op(hot, 0));
+        }
+        p.push(inv.clone());
+        p.push(call_op(hot, 0));
+        progs.push(p);
+    }
+    progs
+}
+
 /// CALLS-ONLY programs (no invalidation, no statistics reset): every thread calls the hot cache with argument
 /// indices from one small set, so that lookups race with the two halves of another thread's store of the SAME key
 /// and stores of different keys race with each other.  Nothing but an eviction can remove an entry in such a run,
@@ -554,6 +582,8 @@ fn main() {
                 }
             }
             ps
+        } else if pi % 8 == 1 || pi % 8 == 6 {
+            gen_racing_invalidations(&mut rng, &fns, nthreads)
         } else {
             gen_program(&mut rng, &fns, nthreads, if nthreads == 2 { 3 } else { 2 })
         };
